@@ -1,4 +1,5 @@
 import Pcore.Proofs.ValueEqBytes
+import Pcore.Proofs.ValueEqVerStr
 /-! Helper lemmas for C07: equality of types as values is an equivalence relation. -/
 namespace Pcore.ValueEq
 
@@ -22,6 +23,12 @@ def TyWF : Ty → Bool
       | none => true)) && decide ((ts.length : Int) ≤ maxInt)   -- a Go slice length is an int
   | .opt t => TyWF t
   | .typ t => TyWF t
+  | .coll lo hi => (minInt ≤ lo && lo ≤ maxInt) && (minInt ≤ hi && hi ≤ maxInt)
+  | .un _ t => TyWF t
+  | .strSize lo hi => (0 ≤ lo && lo ≤ maxInt) && (minInt ≤ hi && hi ≤ maxInt)   -- `NewStringType`: a length is never negative
+  | .pattern ps => decide (ps.length ≤ 9223372036854775807)
+  | .strVal v => !v.isEmpty                    -- `NewStringType`: an empty value is the default String
+  | .semverT _ rs => rs.all arOk               -- versions as `NewVersion3` makes them (and `semver.Min`)
   | _ => true
 def TyWFL : List Ty → Bool
   | [] => true
@@ -70,6 +77,29 @@ theorem tyEq_eq_R : ∀ a b : Ty, tyEq a b = tyEqR a b
       rw [tyEqL_eq_R ts us, beq_swap ts.length us.length, beq_swap (goaSize ts.length sz) (goaSize us.length sz')]
   | .opt t, b => by cases b <;> simp [tyEq, tyEqR]; exact tyEq_eq_R t _
   | .typ t, b => by cases b <;> simp [tyEq, tyEqR]; exact tyEq_eq_R t _
+  | .nul k, b => by cases b <;> simp [tyEq, tyEqR, beq_swap k]
+  | .bool v, b => by cases b <;> simp [tyEq, tyEqR, beq_swap v]
+  | .coll lo hi, b => by
+      cases b <;> simp only [tyEq, tyEqR]
+      rename_i lo' hi'
+      rw [beq_swap lo lo', beq_swap hi hi']
+  | .un k t, b => by
+      cases b <;> simp only [tyEq, tyEqR]
+      rename_i k' u
+      rw [tyEq_eq_R t u, beq_swap k k']
+  | .strSize lo hi, b => by
+      cases b <;> simp only [tyEq, tyEqR]
+      rename_i lo' hi'
+      rw [beq_swap lo lo', beq_swap hi hi']
+  | .strVal v, b => by cases b <;> simp [tyEq, tyEqR, beq_swap v]
+  | .rx p, b => by cases b <;> simp [tyEq, tyEqR, beq_swap p]
+  | .pattern ps, b => by
+      cases b <;> simp only [tyEq, tyEqR]
+      rename_i ps'
+      rw [beq_swap ps.length ps'.length]
+      ac_rfl
+  | .tref s, b => by cases b <;> simp [tyEq, tyEqR, beq_swap s]
+  | .semverT _ rs, b => by cases b <;> simp [tyEq, tyEqR, rangesEq_comm rs]
 theorem tyEqL_eq_R : ∀ ts us : List Ty, tyEqL ts us = tyEqRL ts us
   | [], _ => by simp [tyEqL, tyEqRL]
   | t :: ts, us => by
@@ -108,6 +138,18 @@ theorem tyEqR_swap : ∀ a b : Ty, tyEqR a b = tyEq b a
         rw [tyEqRL_swap ts us hl.symm]
   | .opt t, b => by cases b <;> simp only [tyEq, tyEqR]; exact tyEqR_swap t _
   | .typ t, b => by cases b <;> simp only [tyEq, tyEqR]; exact tyEqR_swap t _
+  | .nul k, b => by cases b <;> simp [tyEq, tyEqR]
+  | .bool v, b => by cases b <;> simp [tyEq, tyEqR]
+  | .coll lo hi, b => by cases b <;> simp [tyEq, tyEqR]
+  | .un k t, b => by
+      cases b <;> simp only [tyEq, tyEqR]
+      rw [tyEqR_swap t _]
+  | .strSize lo hi, b => by cases b <;> simp [tyEq, tyEqR]
+  | .strVal v, b => by cases b <;> simp [tyEq, tyEqR]
+  | .rx p, b => by cases b <;> simp [tyEq, tyEqR]
+  | .pattern ps, b => by cases b <;> simp [tyEq, tyEqR]
+  | .tref s, b => by cases b <;> simp [tyEq, tyEqR]
+  | .semverT _ rs, b => by cases b <;> simp [tyEq, tyEqR]
 theorem tyEqRL_swap : ∀ ts us : List Ty, ts.length = us.length → tyEqRL ts us = tyEqL us ts
   | [], us => fun h => by
       cases us with
@@ -197,6 +239,16 @@ theorem tyEq_refl : ∀ a : Ty, TyWF a = true → tyEq a a = true
       simp [tyEq, tyEqL_refl ts h.1.1]
   | .opt t, h => by simp only [TyWF] at h; simp [tyEq, tyEq_refl t h]
   | .typ t, h => by simp only [TyWF] at h; simp [tyEq, tyEq_refl t h]
+  | .nul _, _ => by simp [tyEq]
+  | .bool _, _ => by simp [tyEq]
+  | .coll _ _, _ => by simp [tyEq]
+  | .un _ t, h => by simp only [TyWF] at h; simp [tyEq, tyEq_refl t h]
+  | .strSize _ _, _ => by simp [tyEq]
+  | .strVal _, _ => by simp [tyEq]
+  | .rx _, _ => by simp [tyEq]
+  | .pattern _, _ => by simp [tyEq, containsAll_refl]
+  | .tref _, _ => by simp [tyEq]
+  | .semverT _ _, _ => by simp [tyEq, rangesEq_iff]
 theorem tyEq_refl_all : ∀ ts : List Ty, TyWFL ts = true → ∀ v ∈ ts, tyEq v v = true
   | [], _ => by simp
   | t :: ts, h => by
@@ -216,21 +268,31 @@ end
 
 mutual
 theorem tyEq_trans : ∀ a b c : Ty, tyEq a b = true → tyEq b c = true → tyEq a c = true
-  | .any, b, c => by cases b <;> cases c <;> simp [tyEq]
-  | .undef, b, c => by cases b <;> cases c <;> simp [tyEq]
-  | .str, b, c => by cases b <;> cases c <;> simp [tyEq]
+  | .any, b, c => by
+      cases b <;> (try (intro h; simp [tyEq] at h; done))
+      cases c <;> simp [tyEq]
+  | .undef, b, c => by
+      cases b <;> (try (intro h; simp [tyEq] at h; done))
+      cases c <;> simp [tyEq]
+  | .str, b, c => by
+      cases b <;> (try (intro h; simp [tyEq] at h; done))
+      cases c <;> simp [tyEq]
   | .int _ _, b, c => by
-      cases b <;> cases c <;> simp [tyEq]
+      cases b <;> (try (intro h; simp [tyEq] at h; done))
+      cases c <;> simp [tyEq]
       intro h1 h2 h3 h4; exact ⟨h1.trans h3, h2.trans h4⟩
   | .flt _ _, b, c => by
-      cases b <;> cases c <;> simp [tyEq]
+      cases b <;> (try (intro h; simp [tyEq] at h; done))
+      cases c <;> simp [tyEq]
       intro h1 h2 h3 h4; exact ⟨feq_trans h1 h3, feq_trans h2 h4⟩
   | .enum _ _, b, c => by
-      cases b <;> cases c <;> simp [tyEq]
+      cases b <;> (try (intro h; simp [tyEq] at h; done))
+      cases c <;> simp [tyEq]
       intro h1 h2 h3 h4 h5 h6 h7 h8
       exact ⟨⟨⟨h1.trans h5, h2.trans h6⟩, containsAll_trans h3 h7⟩, containsAll_trans h8 h4⟩
   | .arr e _ _, b, c => by
-      cases b <;> cases c <;> simp [tyEq]
+      cases b <;> (try (intro h; simp [tyEq] at h; done))
+      cases c <;> simp [tyEq]
       intro h1 h2 h3 h4 h5 h6
       exact ⟨⟨h1.trans h4, h2.trans h5⟩, tyEq_trans e _ _ h3 h6⟩
   | .var ts, b, c => by
@@ -250,15 +312,59 @@ theorem tyEq_trans : ∀ a b c : Ty, tyEq a b = true → tyEq b c = true → tyE
         | _ => simp [tyEq]
       | _ => simp [tyEq]
   | .tup ts _, b, c => by
-      cases b <;> cases c <;> simp [tyEq]
+      cases b <;> (try (intro h; simp [tyEq] at h; done))
+      cases c <;> simp [tyEq]
       intro h1 h2 h3 h4 h5 h6
       exact ⟨⟨h1.trans h4, h2.trans h5⟩, tyEqL_trans ts _ _ h3 h6⟩
   | .opt t, b, c => by
-      cases b <;> cases c <;> simp [tyEq]
+      cases b <;> (try (intro h; simp [tyEq] at h; done))
+      cases c <;> simp [tyEq]
       exact tyEq_trans t _ _
   | .typ t, b, c => by
-      cases b <;> cases c <;> simp [tyEq]
+      cases b <;> (try (intro h; simp [tyEq] at h; done))
+      cases c <;> simp [tyEq]
       exact tyEq_trans t _ _
+  | .nul _, b, c => by
+      cases b <;> (try (intro h; simp [tyEq] at h; done))
+      cases c <;> simp [tyEq]
+      intro h1 h2; exact h1.trans h2
+  | .bool _, b, c => by
+      cases b <;> (try (intro h; simp [tyEq] at h; done))
+      cases c <;> simp [tyEq]
+      intro h1 h2; exact h1.trans h2
+  | .coll _ _, b, c => by
+      cases b <;> (try (intro h; simp [tyEq] at h; done))
+      cases c <;> simp [tyEq]
+      intro h1 h2 h3 h4; exact ⟨h1.trans h3, h2.trans h4⟩
+  | .un _ t, b, c => by
+      cases b <;> (try (intro h; simp [tyEq] at h; done))
+      cases c <;> simp [tyEq]
+      intro h1 h2 h3 h4; exact ⟨h1.trans h3, tyEq_trans t _ _ h2 h4⟩
+  | .strSize _ _, b, c => by
+      cases b <;> (try (intro h; simp [tyEq] at h; done))
+      cases c <;> simp [tyEq]
+      intro h1 h2 h3 h4; exact ⟨h1.trans h3, h2.trans h4⟩
+  | .strVal _, b, c => by
+      cases b <;> (try (intro h; simp [tyEq] at h; done))
+      cases c <;> simp [tyEq]
+      intro h1 h2; exact h1.trans h2
+  | .rx _, b, c => by
+      cases b <;> (try (intro h; simp [tyEq] at h; done))
+      cases c <;> simp [tyEq]
+      intro h1 h2; exact h1.trans h2
+  | .pattern _, b, c => by
+      cases b <;> (try (intro h; simp [tyEq] at h; done))
+      cases c <;> simp [tyEq]
+      intro h1 h2 h3 h4 h5 h6
+      exact ⟨⟨h1.trans h4, containsAll_trans h2 h5⟩, containsAll_trans h6 h3⟩
+  | .tref _, b, c => by
+      cases b <;> (try (intro h; simp [tyEq] at h; done))
+      cases c <;> simp [tyEq]
+      intro h1 h2; exact h1.trans h2
+  | .semverT _ _, b, c => by
+      cases b <;> (try (intro h; simp [tyEq] at h; done))
+      cases c <;> simp [tyEq, rangesEq_iff]
+      intro h1 h2; exact h1.trans h2
 theorem tyEq_trans_all : ∀ ts : List Ty, ∀ v ∈ ts, ∀ b c : Ty, tyEq v b = true → tyEq b c = true → tyEq v c = true
   | [], _, h => by simp at h
   | t :: ts, v, hv => by
